@@ -20,46 +20,9 @@
 -/
 import BufrModel.Lemmas.Wire
 import BufrModel.Lemmas.NestedJson
+import BufrModel.View.WireClass
 namespace Bufr.C09
 open Bufr
-
-/-- operators that both walks count alike and for which the wiring pass needs no state of its own -/
-def quietOp (a : Bool) (id : Nat) : Bool :=
-  id / 1000 == 201 || id / 1000 == 202 || (id / 1000 == 203 && !a) || (id / 1000 == 204 && a) ||
-  id / 1000 == 205 || id / 1000 == 207 || id / 1000 == 208 || id / 1000 == 221
-
-/-- `204YYY` with `YYY ≠ 0` -/
-def opens204 : Desc → Bool
-  | .op id => id / 1000 == 204 && id % 1000 != 0
-  | _ => false
-
-def is31021 : Desc → Bool
-  | .elem e => e.id == 31021
-  | _ => false
-
-def starts31021 : List Desc → Bool
-  | d :: _ => is31021 d
-  | [] => false
-
-/-- a replication factor of class 31 (it never carries an associated field) -/
-def factor31 : Desc → Bool
-  | .elem fe => xOf fe.id == 31
-  | _ => true
-
-mutual
-def quietList (a : Bool) : List Desc → Bool
-  | [] => true
-  | d :: ds => quiet1 a d && (!opens204 d || starts31021 ds) && quietList a ds
-
-def quiet1 (a : Bool) : Desc → Bool
-  | .elem _ => true
-  | .undefElem _ => true
-  | .undefSeq _ => false
-  | .fixedRep id ms => id / 100000 == 1 && quietList a ms
-  | .delayedRep id f ms => id / 100000 == 1 && (!a || factor31 f) && quietList a ms
-  | .op id => quietOp a id
-  | .seq id ms => id / 100000 != 1 && quietList a ms
-end
 
 /-- the registers of the coder that the wiring pass has no counterpart for are idle, and the (single) value
     list is as long as the descriptor list -/
@@ -83,6 +46,7 @@ structure Pushed (dd : DDesc) (s s' : St) : Prop where
   qa : s'.regs.qa = s.regs.qa
   skipped : s'.regs.nbitsSkipped = s.regs.nbitsSkipped
   dnp : s'.regs.dnpCount = s.regs.dnpCount
+  links : s'.links = s.links
 
 /-- what the simulation needs from the primitives -/
 structure PushOne (P : Prims) : Prop where
@@ -90,6 +54,7 @@ structure PushOne (P : Prims) : Prop where
   string : ∀ dd n s s', P.string dd n s = .ok s' → Pushed dd s s'
   codeflag : ∀ dd n s s', P.codeflag dd n s = .ok s' → Pushed dd s s'
   newRefval : ∀ e n s s', P.newRefval e n s = .ok s' → Pushed (.plain e) s s'
+  constant : ∀ dd v s s', P.constant dd v s = .ok s' → Pushed dd s s'
   factor : ∀ s v l, P.factorValue s = .ok v → s.vals.head? = some l → l.head? = some v
 
 /-- `s'` was reached from `s` by recording descriptors and values only -/
@@ -910,7 +875,7 @@ theorem pushAll_al (s : St) (ds : List DDesc) (v : Val) (dd : DDesc) (h : ∀ l 
 
 theorem pushed_desc_val (s : St) (dd : DDesc) (rest : Bits) (v : Val) :
     Pushed dd s (({ s.pushDesc dd with bits := rest } : St).pushAll v) := by
-  refine ⟨rfl, fun l hl => ⟨v, ?_⟩, fun h => pushAll_al s s.descs v dd h, rfl, rfl, rfl, rfl, rfl, rfl⟩
+  refine ⟨rfl, fun l hl => ⟨v, ?_⟩, fun h => pushAll_al s s.descs v dd h, rfl, rfl, rfl, rfl, rfl, rfl, rfl⟩
   show (s.vals.map (v :: ·)).head? = _
   rw [List.head?_map, hl]
   rfl
@@ -969,10 +934,17 @@ theorem pushOne_decPrimsU : PushOne decPrimsU where
       obtain ⟨rest, hs1⟩ := read_ok hr
       injection h with h
       subst h hs1
-      refine ⟨rfl, fun l hl => ⟨.int v, ?_⟩, fun h => pushAll_al s s.descs (.int v) (.plain e) h, rfl, rfl, rfl, rfl, rfl, rfl⟩
+      refine ⟨rfl, fun l hl => ⟨.int v, ?_⟩, fun h => pushAll_al s s.descs (.int v) (.plain e) h, rfl, rfl, rfl, rfl, rfl, rfl, rfl⟩
       show (s.vals.map (Val.int v :: ·)).head? = _
       rw [List.head?_map, hl]
       rfl
+  constant := by
+    intro dd v s s' h
+    change decConstant dd v s = .ok s' at h
+    unfold decConstant at h
+    injection h with h
+    subst h
+    exact pushed_desc_val s dd s.bits _
   factor := by
     intro s v l h hl
     change decFactorU s = .ok v at h
